@@ -613,7 +613,7 @@ fn run_case<P: Instrumented + Clone + 'static>(c: &RunCase, cfg: ExecResult<Conf
 
 fn step_strategy() -> impl Strategy<Value = StepCase> {
     (
-        proptest::collection::vec((-4i8..5, 0u8..3), 0..13),
+        prop_oneof![9 => proptest::collection::vec((-4i8..5, 0u8..3), 0..13), 1 => proptest::collection::vec((-4i8..5, 0u8..3), 32..48)],
         prop_oneof![9 => Just(false), 1 => Just(true)],
         0u8..3,
         prop_oneof![6 => Just(0u8), 1 => Just(1u8), 1 => Just(2u8)],
